@@ -187,4 +187,33 @@ MUT={
 		me = gme.mes[gme.defaultName]
 	}
 	_ = ok""")],
+ 'c11-index-from-1': [(P,"""	for i := 0; i < valField.Len(); i++ {""","""	for i := 1; i < valField.Len(); i++ {""")],
+ 'c11-first-only': [(P,"""		keys = append(keys, kk...)
+	}""","""		keys = append(keys, kk...)
+		break
+	}""")],
+ 'c11-no-ptr-elem': [(P,"""	if val.Kind() == reflect.Pointer || val.Kind() == reflect.Interface {""","""	if val.Kind() == reflect.Interface {""")],
+ 'c11-swallow-err': [(P,"""		if err != nil {
+			return keys, err
+		}
+		keys = append(keys, kk...)""","""		if err != nil {
+			continue
+		}
+		keys = append(keys, kk...)""")],
+ 'c11-title-lower': [(P,"""	valField := val.FieldByName(strings.Title(path[start]))""","""	valField := val.FieldByName(path[start])""")],
+ 'c17-no-clone': [(B,"""			ApiConfig: proto.Clone(cfg.ApiConfig).(*pb.ApiConfig),""","""			ApiConfig: func() *pb.ApiConfig { _ = proto.Clone; return cfg.ApiConfig }(),""")],
+ 'c17-wm-over-100': [(B,"""	if cp.GetMaxConcurrentStreamsLowWatermark() == 0 {""","""	if cp.GetMaxConcurrentStreamsLowWatermark() == 0 || cp.GetMaxConcurrentStreamsLowWatermark() > 100 {""")],
+ 'c17-reinit': [(B,"""	gb.addrs = addrs
+	if gb.cfg == nil {""","""	gb.addrs = addrs
+	if gb.cfg == nil || ccs.BalancerConfig != nil {""")],
+ 'c17-gcpconfig-noclone': [(G,"""	return proto.Clone(gme.gcpConfig).(*pb.ApiConfig)""","""	return gme.gcpConfig""")],
+ 'c17-gme-store-noclone': [(G,"""		gcpConfig:   proto.Clone(meOpts.GRPCgcpConfig).(*pb.ApiConfig),""","""		gcpConfig:   meOpts.GRPCgcpConfig,""")],
+ 'c17-first-entry-wins': [(B,"""			for _, method := range methodNames {
+				mp[method] = affinityCfg
+			}""","""			for _, method := range methodNames {
+				if len(methodNames) > 1 && method == methodNames[1] {
+					continue
+				}
+				mp[method] = affinityCfg
+			}""")],
 }
